@@ -470,6 +470,8 @@ class InProc:
         # the SPEC function of the theorems against the real object
         self.add('policy_eqb (policy_of %s %s %s %s) %s' % (cs(src), cs(today), cbool(client), cpr, cpol_full(P)),
                  {'op': 'policy_of', 'peer': peer, 'impl': pol_of_object(P)})
+        # the precondition of the theorems holds on every generated peer of the property's domain
+        self.add('wf_peer %s && wf_text %s && wf_text %s' % (cpr, cs(src), cs(today)), {'op': 'wf_peer', 'peer': peer, 'src': src})
         # the policy lists exactly what the peer has (statement: "made from a target")
         pol = pol_of_object(P)
         for pf, af in (('kex', 'kex'), ('host_keys', 'key'), ('ciphers', 'enc'), ('macs', 'mac')):
